@@ -11,7 +11,9 @@
   * btConstCodes  : opcodes of the "BT|BF L, 0|1" rewrite
   * thresholds    : default MIR_MAX_INSNS_FOR_INLINE / MIR_MAX_INSNS_FOR_CALL_INLINE / growth
   * pinned        : normalised text of the consolidation loop (whose arithmetic Model/Simplify.lean
-                    mirrors; the rounding variant is detected and exported as `roundAlways`)
+                    mirrors; the rounding variant is detected and exported as `roundAlways`); likewise
+                    `muloRow` (MULO/MULOS in the shortcut rows) and `freshRets` (make_one_ret merging the
+                    values of several rets through fresh temporaries) select the model variant
 Writes lean/MirVerif/Gen/C04_Tables.lean.  Anything unexpected makes the translator fail (exit 2)."""
 import json, os, re, subprocess, sys
 
@@ -280,7 +282,24 @@ def extract(src):
         rest = loop.replace(fixed, "<ROUND>")
     else:
         die("rounding statement of the consolidation loop not recognised: " + loop)
-    return dict(rev=rev, ret_ext=ret_ext, arg_ext=arg_ext, arg_skip=arg_skip, shortcut=shortcut, bt_codes=bt_codes,
+    names = [c for c, _ in shortcut]
+    if ("MULO" in names) != ("MULOS" in names):
+        die("MULO and MULOS rows of the shortcut differ")
+    mulo_row = "MULO" in names
+    # make_one_ret: how the values of several rets are merged
+    one_n = norm(one)
+    cur_r = "ret_reg_op = last_ret_insn->ops[i]; VARR_PUSH (MIR_op_t, ret_ops, ret_reg_op); switch (res_types[i])"
+    fix_r = ("ret_reg_op = last_ret_insn->ops[i]; if (ret_label != NULL) { mov_code = get_type_move_code (res_types[i]); "
+             "ret_reg = _MIR_new_temp_reg (ctx, mov_code == MIR_MOV ? MIR_T_I64 : res_types[i], func); "
+             "MIR_insert_insn_before (ctx, func_item, ret_label, MIR_new_insn (ctx, mov_code, MIR_new_reg_op (ctx, ret_reg), ret_reg_op)); "
+             "last_ret_insn->ops[i] = ret_reg_op = MIR_new_reg_op (ctx, ret_reg); } VARR_PUSH (MIR_op_t, ret_ops, ret_reg_op); switch (res_types[i])")
+    if cur_r in one_n:
+        fresh_rets = False
+    elif fix_r in one_n:
+        fresh_rets = True
+    else:
+        die("merging of return values in make_one_ret not recognised")
+    return dict(mulo_row=mulo_row, fresh_rets=fresh_rets, rev=rev, ret_ext=ret_ext, arg_ext=arg_ext, arg_skip=arg_skip, shortcut=shortcut, bt_codes=bt_codes,
                 bt_true=bt_true, thr=thr, round_always=round_always, loop=rest)
 
 
@@ -306,7 +325,9 @@ def main():
     out.append(f"def maxInsnsForInline : Nat := {d['thr']['MIR_MAX_INSNS_FOR_INLINE']}")
     out.append(f"def maxInsnsForCallInline : Nat := {d['thr']['MIR_MAX_INSNS_FOR_CALL_INLINE']}")
     out.append(f"def maxFuncInlineGrowth : Nat := {d['thr']['MIR_MAX_FUNC_INLINE_GROWTH']}\n")
-    out.append(f"def roundAlways : Bool := {'true' if d['round_always'] else 'false'}\n")
+    out.append(f"def roundAlways : Bool := {'true' if d['round_always'] else 'false'}")
+    out.append(f"def muloRow : Bool := {'true' if d['mulo_row'] else 'false'}")
+    out.append(f"def freshRets : Bool := {'true' if d['fresh_rets'] else 'false'}\n")
     out.append("def consolidationLoop : String := " + lstr(d["loop"]) + "\n")
     out.append("end MirVerif.Gen.C04")
     txt = "\n".join(out) + "\n"
